@@ -240,6 +240,44 @@ CHECKS["C39"] = _bounded(
 CHECKS["C39"]["engine"] = "pysym+rtc"
 CHECKS["C39"]["technique"] = "deductive verification of the cell helpers (own AST->SMT VC generator) + bounded run-time contract on RenameChoices"
 
+CHECKS["C02"] = _bounded(
+  "Run-time contract with a ghost mirror: the repository's own table_data_set.TableDataSet is fed "
+  "the stored actions of every bundle since InitNewDoc and must equal the engine's tables, row ids "
+  "and non-private cells after each bundle; no silent change, no phantom action.",
+  "bounded; TableDataSet is trusted as the independent interpreter the statement names; known "
+  "findings shared with C04 (formula cells reset by rollback)", "5/C02")
+CHECKS["C04"] = _bounded(
+  "Exceptional postcondition of Engine.apply_user_actions under enumerated faults: an exception is "
+  "injected before / after / inside every doc-action step and inside rebuild_usercode, plus the "
+  "natural failures of the generator; snapshot unchanged, schema consistent, engine usable "
+  "(silent Calculate, same behaviour as a shadow engine).",
+  "faults are Python exceptions at doc-action granularity (not inside formula evaluation or "
+  "during rollback itself); positions capped at 60 per bundle in quick; known findings in "
+  "known_findings.d/C04.json", "5/C04", level="fault_enumeration")
+CHECKS["C08"] = _bounded(
+  "Invariant after every successful bundle and after every rollback: assert_schema_consistent() "
+  "plus an independent field-by-field comparison of engine.schema with the schema derived from "
+  "_grist_Tables/_grist_Tables_column, and no column record of a nonexistent table; half of the "
+  "bundles are direct metadata edits.",
+  "bounded; known findings: direct metadata inserts accepted without schema action", "5/C08")
+CHECKS["C09"] = _bounded(
+  "Invariant after every successful bundle: all 44 Ref/RefList columns of the _grist_* tables "
+  "(derived mechanically from schema_create_actions()) resolve, plus the statement's specific "
+  "clauses (fields/sections/raw sections/one record per table/helper columns used).",
+  "bounded; histories that write dangling metadata references themselves are not evaluated "
+  "further (precondition); known finding: summary raw section re-targeted", "5/C09")
+CHECKS["C29"] = _bounded(
+  "Frame contract (modifies nothing) on fetch_table, fetch_meta_tables, get_formula_error, "
+  "evaluate_formula, get_formula_prompt, autocomplete, find_col_from_values on documents with "
+  "side-effecting formulas: snapshot (private columns included) unchanged and a following "
+  "Calculate silent.",
+  "bounded; known findings: pending auto-removals survive a read-only evaluation", "5/C29")
+CHECKS["C31"] = _bounded(
+  "Run-time contract on every reply: len(direct) == len(stored); calc-only, summary-row and "
+  "empty-column-conversion actions are non-direct; actions carrying the user's record edits on "
+  "ordinary tables are direct.",
+  "bounded; classification of stored actions written from the statement", "5/C31")
+
 NOT_APPLICABLE = {
   "C30": "quantifies over interpreter configurations (PYTHONHASHSEED) and relates two separate "
          "processes; no pre/postcondition on a call inside one process can mention the hash seed "
